@@ -14,6 +14,7 @@ from dsim.sim import ALL_SLOTS, Sim
 from dsim.world import substream
 
 PROPERTY = "C16"
+DECOY = 0.25  # share of runs that edit a second document first and keep it open (runner.with_decoy)
 RULE = (
     "two arms. (a) API arm: a seeded history on new documents setting any subset of row_height, col_width, header counts, table/sheet names, "
     "caption text, caption/name visibility, add_table(x, y), with strokes of various widths on rows/columns, with or without size observers "
